@@ -5,9 +5,10 @@
 (*   pop an address; _gen_graph it; if it is a formula cell remember its   *)
 (*   value, clear it, evaluate it from the CURRENT values of its           *)
 (*   precedents and compare with close_enough; push its needed addresses.  *)
-(* An exception while handling an address (the cell, or an uncomputed      *)
-(* precedent it has to evaluate, is broken) is recorded and the address is *)
-(* neither marked verified nor expanded; the cell stays cleared.           *)
+(* An exception while handling an address (building a new range over a     *)
+(* broken uncomputed cell, or the cell / an uncomputed precedent it has to *)
+(* evaluate is broken) is recorded; the address is still marked verified   *)
+(* and its needed addresses are still pushed.                              *)
 (* Choices made in Init: the perturbed cell p and its stored value pv      *)
 (* (or no perturbation), the output list, the tolerance.                   *)
 (* Property (checked when the work list is empty):                         *)
@@ -70,18 +71,31 @@ VStep ==
   /\ todo # <<>>
   /\ LET n  == todo[Len(todo)]
          rest == SubSeq(todo, 1, Len(todo) - 1)
+         B  == AncOf(n) \ built
+         c0 == [x \in Nodes |->
+                  IF x \notin B THEN cache[x]
+                  ELSE IF x \in Inputs THEN inp[x]
+                  ELSE IF x \in Formulas THEN StoredP(x)
+                  ELSE NoneV]
+         \* what _gen_graph evaluates (new ranges) and what the check evaluates
+         needBuild == UNION {Needed(r, c0) : r \in B \cap (Ranges \cup Aliases)}
          st == BuildOnly(n)
+         needEval == IF n \in Formulas THEN Needed(n, [st.cache EXCEPT ![n] = NoneV]) ELSE {}
      IN  /\ built' = st.built
          /\ edges' = st.edges
-         /\ IF n \in Formulas /\
-               Needed(n, [st.cache EXCEPT ![n] = NoneV]) \cap Broken # {}
-            THEN /\ excs' = excs \cup {n}
-                 /\ cache' = [st.cache EXCEPT ![n] = NoneV]   \* cleared before the raise
-                 /\ todo' = rest
-                 /\ UNCHANGED <<verified, mism>>
+         /\ verified' = verified \cup {n}
+         /\ todo' = Push(rest, n, verified \cup {n})
+         /\ IF needBuild \cap Broken # {}
+            THEN \* _gen_graph raised while evaluating a new range
+                 /\ excs' = excs \cup {n}
+                 /\ cache' = c0
+                 /\ mism' = mism
+            ELSE IF needEval \cap Broken # {}
+            THEN \* the cell, or an uncomputed precedent, raised; it stays cleared
+                 /\ excs' = excs \cup {n}
+                 /\ cache' = [st.cache EXCEPT ![n] = NoneV]
+                 /\ mism' = mism
             ELSE /\ excs' = excs
-                 /\ verified' = verified \cup {n}
-                 /\ todo' = Push(rest, n, verified \cup {n})
                  /\ IF n \in Formulas
                     THEN LET orig == st.cache[n]
                              c1 == Fill([st.cache EXCEPT ![n] = NoneV], {n})
@@ -99,7 +113,7 @@ VSpec == VInit /\ [][VStep]_vvars
 (* ---- the report relation ---- *)
 RECURSIVE ReachRec(_, _)
 ReachRec(front, seen) ==
-  LET nxt == UNION {IF x \in Broken THEN {} ELSE PrecMap[x] : x \in front} \ seen
+  LET nxt == UNION {PrecMap[x] : x \in front} \ seen
   IN  IF nxt = {} THEN seen ELSE ReachRec(nxt, seen \cup nxt)
 Reach == ReachRec({outs[i] : i \in 1..Len(outs)}, {outs[i] : i \in 1..Len(outs)})
 
